@@ -342,7 +342,7 @@ def run(tier, seed, replay=None):
         bad = oracle(nodes, rootids, order, outcome)
         classes, deps = true_deps(nodes, rootids)
         cyc = any(c in deps[c] for c in classes)
-        if not bad:
+        if not bad and stats.get("generator_calls", 0) < 1500:
             # the generator is where the order is used: it refuses what the ordering routine refuses (a module declaring a class
             # before a class it mentions does not import), and orders what it orders
             from statham.serializers import serialize_python
